@@ -337,3 +337,15 @@ def gen_rod_scene(rng, conservative=False, allow_body=True):
     if not conservative and rng.random() < 0.4:
         scene["forces"].append({"type": str(rng.choice(["moment", "b_moment"])), "rod": 0, "xi": float(rng.choice([0.5, 1.0])), "vec": (rng.normal(size=3) * min(spec["Fi"]) / L * 0.3).tolist(), "time": "const", "w": 1.0})
     return scene
+
+
+def add_knife_edge(rng, scene, prob=0.3):
+    """With probability ``prob`` put a user-defined nonholonomic (velocity-level) constraint on one rigid body that has
+    freedom left (draws from rng only after the scene itself is complete)."""
+    x = rng.random()
+    rigid = [i for i, b in enumerate(scene["bodies"]) if b["kind"] == "rigid"]
+    pick, rB, n = int(rng.integers(1 << 30)), rng.uniform(-0.3, 0.3, 3), rng.normal(size=3)
+    if x >= prob or not rigid or scene.get("dof_estimate", 0) < 2:
+        return scene
+    scene["nonholonomic"] = [{"body": rigid[pick % len(rigid)], "rB": rB.tolist(), "n": n.tolist()}]
+    return scene
